@@ -335,10 +335,13 @@ func rpcRefreshContract(ctx context.Context, t TransportClient, tp TxPool, signe
 	if err != nil {
 		return RPCRefreshContractResult{}, clientErr("failed to fund transaction", err)
 	}
+	// the inputs to release if the attempt fails are the ones reserved here,
+	// not whatever the host later lists among its inputs
+	reserved := types.V2Transaction{SiacoinInputs: slices.Clone(renewalTxn.SiacoinInputs)}
 
 	req.Basis, req.RenterParents, err = tp.V2TransactionSet(basis, renewalTxn)
 	if err != nil {
-		signer.ReleaseInputs([]types.V2Transaction{renewalTxn})
+		signer.ReleaseInputs([]types.V2Transaction{reserved})
 		return RPCRefreshContractResult{}, clientErr("failed to get transaction set", err)
 	}
 	for _, si := range renewalTxn.SiacoinInputs {
@@ -351,19 +354,19 @@ func rpcRefreshContract(ctx context.Context, t TransportClient, tp TxPool, signe
 
 	s, err := openStream(ctx, t, defaultStreamTimeout)
 	if err != nil {
-		signer.ReleaseInputs([]types.V2Transaction{renewalTxn})
+		signer.ReleaseInputs([]types.V2Transaction{reserved})
 		return RPCRefreshContractResult{}, fmt.Errorf("failed to dial stream: %w", err)
 	}
 	defer s.Close()
 
 	if err := rhp4.WriteRequest(s, id, &req); err != nil {
-		signer.ReleaseInputs([]types.V2Transaction{renewalTxn})
+		signer.ReleaseInputs([]types.V2Transaction{reserved})
 		return RPCRefreshContractResult{}, fmt.Errorf("failed to write request: %w", err)
 	}
 
 	var hostInputsResp rhp4.RPCRefreshContractResponse
 	if err := rhp4.ReadResponse(s, &hostInputsResp); err != nil {
-		signer.ReleaseInputs([]types.V2Transaction{renewalTxn})
+		signer.ReleaseInputs([]types.V2Transaction{reserved})
 		return RPCRefreshContractResult{}, fmt.Errorf("failed to read host inputs response: %w", err)
 	}
 
@@ -376,7 +379,7 @@ func rpcRefreshContract(ctx context.Context, t TransportClient, tp TxPool, signe
 
 	// verify the host added enough inputs
 	if n := hostInputSum.Cmp(hostCost); n < 0 {
-		signer.ReleaseInputs([]types.V2Transaction{renewalTxn})
+		signer.ReleaseInputs([]types.V2Transaction{reserved})
 		return RPCRefreshContractResult{}, clientErrf("expected host to fund %v, got %v", hostCost, hostInputSum)
 	} else if n > 0 {
 		// add change output
@@ -410,51 +413,51 @@ func rpcRefreshContract(ctx context.Context, t TransportClient, tp TxPool, signe
 		renterPolicyResp.RenterSatisfiedPolicies = append(renterPolicyResp.RenterSatisfiedPolicies, si.SatisfiedPolicy)
 	}
 	if err := rhp4.WriteResponse(s, &renterPolicyResp); err != nil {
-		signer.ReleaseInputs([]types.V2Transaction{renewalTxn})
+		signer.ReleaseInputs([]types.V2Transaction{reserved})
 		return RPCRefreshContractResult{}, fmt.Errorf("failed to write signature response: %w", err)
 	}
 
 	// read the finalized transaction set
 	var hostTransactionSetResp rhp4.RPCRefreshContractThirdResponse
 	if err := rhp4.ReadResponse(s, &hostTransactionSetResp); err != nil {
-		signer.ReleaseInputs([]types.V2Transaction{renewalTxn})
+		signer.ReleaseInputs([]types.V2Transaction{reserved})
 		return RPCRefreshContractResult{}, fmt.Errorf("failed to read final response: %w", err)
 	}
 
 	if len(hostTransactionSetResp.TransactionSet) == 0 {
-		signer.ReleaseInputs([]types.V2Transaction{renewalTxn})
+		signer.ReleaseInputs([]types.V2Transaction{reserved})
 		return RPCRefreshContractResult{}, clientErrf("expected at least one host transaction")
 	}
 	hostRenewalTxn := hostTransactionSetResp.TransactionSet[len(hostTransactionSetResp.TransactionSet)-1]
 	if len(hostRenewalTxn.FileContractResolutions) != 1 {
-		signer.ReleaseInputs([]types.V2Transaction{renewalTxn})
+		signer.ReleaseInputs([]types.V2Transaction{reserved})
 		return RPCRefreshContractResult{}, clientErrf("expected exactly one resolution")
 	}
 
 	hostRenewal, ok := hostRenewalTxn.FileContractResolutions[0].Resolution.(*types.V2FileContractRenewal)
 	if !ok {
-		signer.ReleaseInputs([]types.V2Transaction{renewalTxn})
+		signer.ReleaseInputs([]types.V2Transaction{reserved})
 		return RPCRefreshContractResult{}, clientErrf("expected renewal resolution")
 	}
 
 	// check for no funny business: the final transaction must be the one we
 	// signed
 	if renewalTxn.ID() != hostRenewalTxn.ID() {
-		signer.ReleaseInputs([]types.V2Transaction{renewalTxn})
+		signer.ReleaseInputs([]types.V2Transaction{reserved})
 		return RPCRefreshContractResult{}, clientErrf("transaction ID mismatch")
 	}
 
 	// validate the host signature
 	if !existing.HostPublicKey.VerifyHash(renewalSigHash, hostRenewal.HostSignature) {
-		signer.ReleaseInputs([]types.V2Transaction{renewalTxn})
+		signer.ReleaseInputs([]types.V2Transaction{reserved})
 		return RPCRefreshContractResult{}, clientErrf("invalid host renewal signature")
 	} else if !existing.HostPublicKey.VerifyHash(contractSigHash, hostRenewal.NewContract.HostSignature) {
-		signer.ReleaseInputs([]types.V2Transaction{renewalTxn})
+		signer.ReleaseInputs([]types.V2Transaction{reserved})
 		return RPCRefreshContractResult{}, clientErrf("invalid host contract signature")
 	} else if cs.ContractSigHash(hostRenewal.NewContract) != contractSigHash || hostRenewal.NewContract.RenterSignature != renewal.NewContract.RenterSignature {
 		// the signatures above were checked against the contract built locally;
 		// the contract the host sent back must be that same contract
-		signer.ReleaseInputs([]types.V2Transaction{renewalTxn})
+		signer.ReleaseInputs([]types.V2Transaction{reserved})
 		return RPCRefreshContractResult{}, clientErrf("host returned a different contract")
 	}
 	return RPCRefreshContractResult{
@@ -1080,10 +1083,13 @@ func RPCFormContract(ctx context.Context, t TransportClient, tp TxPool, signer F
 	if err != nil {
 		return RPCFormContractResult{}, clientErr("failed to fund transaction", err)
 	}
+	// the inputs to release if the attempt fails are the ones reserved here,
+	// not whatever the host later lists among its inputs
+	reserved := types.V2Transaction{SiacoinInputs: slices.Clone(formationTxn.SiacoinInputs)}
 
 	basis, formationSet, err := tp.V2TransactionSet(basis, formationTxn)
 	if err != nil {
-		signer.ReleaseInputs([]types.V2Transaction{formationTxn})
+		signer.ReleaseInputs([]types.V2Transaction{reserved})
 		return RPCFormContractResult{}, clientErr("failed to get transaction set", err)
 	}
 	formationTxn, formationSet = formationSet[len(formationSet)-1], formationSet[:len(formationSet)-1]
@@ -1095,7 +1101,7 @@ func RPCFormContract(ctx context.Context, t TransportClient, tp TxPool, signer F
 
 	s, err := openStream(ctx, t, defaultStreamTimeout)
 	if err != nil {
-		signer.ReleaseInputs([]types.V2Transaction{formationTxn})
+		signer.ReleaseInputs([]types.V2Transaction{reserved})
 		return RPCFormContractResult{}, fmt.Errorf("failed to dial stream: %w", err)
 	}
 	defer s.Close()
@@ -1109,13 +1115,13 @@ func RPCFormContract(ctx context.Context, t TransportClient, tp TxPool, signer F
 		RenterParents: formationSet,
 	}
 	if err := rhp4.WriteRequest(s, rhp4.RPCFormContractID, &req); err != nil {
-		signer.ReleaseInputs([]types.V2Transaction{formationTxn})
+		signer.ReleaseInputs([]types.V2Transaction{reserved})
 		return RPCFormContractResult{}, fmt.Errorf("failed to write request: %w", err)
 	}
 
 	var hostInputsResp rhp4.RPCFormContractResponse
 	if err := rhp4.ReadResponse(s, &hostInputsResp); err != nil {
-		signer.ReleaseInputs([]types.V2Transaction{formationTxn})
+		signer.ReleaseInputs([]types.V2Transaction{reserved})
 		return RPCFormContractResult{}, fmt.Errorf("failed to read host inputs response: %w", err)
 	}
 
@@ -1127,7 +1133,7 @@ func RPCFormContract(ctx context.Context, t TransportClient, tp TxPool, signer F
 	}
 
 	if n := hostInputSum.Cmp(fc.TotalCollateral); n < 0 {
-		signer.ReleaseInputs([]types.V2Transaction{formationTxn})
+		signer.ReleaseInputs([]types.V2Transaction{reserved})
 		return RPCFormContractResult{}, clientErrf("expected host to fund at least %v, got %v", fc.TotalCollateral, hostInputSum)
 	} else if n > 0 {
 		// add change output
@@ -1150,24 +1156,24 @@ func RPCFormContract(ctx context.Context, t TransportClient, tp TxPool, signer F
 	}
 	// send the renter signatures
 	if err := rhp4.WriteResponse(s, &renterPolicyResp); err != nil {
-		signer.ReleaseInputs([]types.V2Transaction{formationTxn})
+		signer.ReleaseInputs([]types.V2Transaction{reserved})
 		return RPCFormContractResult{}, fmt.Errorf("failed to write signature response: %w", err)
 	}
 
 	// read the finalized transaction set
 	var hostTransactionSetResp rhp4.RPCFormContractThirdResponse
 	if err := rhp4.ReadResponse(s, &hostTransactionSetResp); err != nil {
-		signer.ReleaseInputs([]types.V2Transaction{formationTxn})
+		signer.ReleaseInputs([]types.V2Transaction{reserved})
 		return RPCFormContractResult{}, fmt.Errorf("failed to read final response: %w", err)
 	}
 
 	if len(hostTransactionSetResp.TransactionSet) == 0 {
-		signer.ReleaseInputs([]types.V2Transaction{formationTxn})
+		signer.ReleaseInputs([]types.V2Transaction{reserved})
 		return RPCFormContractResult{}, clientErrf("expected at least one host transaction")
 	}
 	hostFormationTxn := hostTransactionSetResp.TransactionSet[len(hostTransactionSetResp.TransactionSet)-1]
 	if len(hostFormationTxn.FileContracts) != 1 {
-		signer.ReleaseInputs([]types.V2Transaction{formationTxn})
+		signer.ReleaseInputs([]types.V2Transaction{reserved})
 		return RPCFormContractResult{}, clientErrf("expected exactly one contract")
 	}
 
@@ -1175,21 +1181,21 @@ func RPCFormContract(ctx context.Context, t TransportClient, tp TxPool, signer F
 	formationTxnID := formationTxn.ID()
 	hostFormationTxnID := hostFormationTxn.ID()
 	if formationTxnID != hostFormationTxnID {
-		signer.ReleaseInputs([]types.V2Transaction{formationTxn})
+		signer.ReleaseInputs([]types.V2Transaction{reserved})
 		return RPCFormContractResult{}, clientErrf("transaction ID mismatch")
 	}
 
 	// the transaction ID does not cover signatures: the contract must still
 	// carry the signature we sent, or the set cannot confirm
 	if hostFormationTxn.FileContracts[0].RenterSignature != fc.RenterSignature {
-		signer.ReleaseInputs([]types.V2Transaction{formationTxn})
+		signer.ReleaseInputs([]types.V2Transaction{reserved})
 		return RPCFormContractResult{}, clientErrf("renter signature missing from the final transaction")
 	}
 
 	// validate the host signature
 	fc.HostSignature = hostFormationTxn.FileContracts[0].HostSignature
 	if !fc.HostPublicKey.VerifyHash(formationSigHash, fc.HostSignature) {
-		signer.ReleaseInputs([]types.V2Transaction{formationTxn})
+		signer.ReleaseInputs([]types.V2Transaction{reserved})
 		return RPCFormContractResult{}, clientErrf("invalid host signature")
 	}
 
@@ -1224,10 +1230,13 @@ func RPCRenewContract(ctx context.Context, t TransportClient, tp TxPool, signer 
 	if err != nil {
 		return RPCRenewContractResult{}, clientErr("failed to fund transaction", err)
 	}
+	// the inputs to release if the attempt fails are the ones reserved here,
+	// not whatever the host later lists among its inputs
+	reserved := types.V2Transaction{SiacoinInputs: slices.Clone(renewalTxn.SiacoinInputs)}
 
 	req.Basis, req.RenterParents, err = tp.V2TransactionSet(basis, renewalTxn)
 	if err != nil {
-		signer.ReleaseInputs([]types.V2Transaction{renewalTxn})
+		signer.ReleaseInputs([]types.V2Transaction{reserved})
 		return RPCRenewContractResult{}, clientErr("failed to get transaction set", err)
 	}
 	for _, si := range renewalTxn.SiacoinInputs {
@@ -1240,19 +1249,19 @@ func RPCRenewContract(ctx context.Context, t TransportClient, tp TxPool, signer 
 
 	s, err := openStream(ctx, t, defaultStreamTimeout)
 	if err != nil {
-		signer.ReleaseInputs([]types.V2Transaction{renewalTxn})
+		signer.ReleaseInputs([]types.V2Transaction{reserved})
 		return RPCRenewContractResult{}, fmt.Errorf("failed to dial stream: %w", err)
 	}
 	defer s.Close()
 
 	if err := rhp4.WriteRequest(s, rhp4.RPCRenewContractID, &req); err != nil {
-		signer.ReleaseInputs([]types.V2Transaction{renewalTxn})
+		signer.ReleaseInputs([]types.V2Transaction{reserved})
 		return RPCRenewContractResult{}, fmt.Errorf("failed to write request: %w", err)
 	}
 
 	var hostInputsResp rhp4.RPCRenewContractResponse
 	if err := rhp4.ReadResponse(s, &hostInputsResp); err != nil {
-		signer.ReleaseInputs([]types.V2Transaction{renewalTxn})
+		signer.ReleaseInputs([]types.V2Transaction{reserved})
 		return RPCRenewContractResult{}, fmt.Errorf("failed to read host inputs response: %w", err)
 	}
 
@@ -1265,7 +1274,7 @@ func RPCRenewContract(ctx context.Context, t TransportClient, tp TxPool, signer 
 
 	// verify the host added enough inputs
 	if n := hostInputSum.Cmp(hostCost); n < 0 {
-		signer.ReleaseInputs([]types.V2Transaction{renewalTxn})
+		signer.ReleaseInputs([]types.V2Transaction{reserved})
 		return RPCRenewContractResult{}, clientErrf("expected host to fund %v, got %v", hostCost, hostInputSum)
 	} else if n > 0 {
 		// add change output
@@ -1299,51 +1308,51 @@ func RPCRenewContract(ctx context.Context, t TransportClient, tp TxPool, signer 
 		renterPolicyResp.RenterSatisfiedPolicies = append(renterPolicyResp.RenterSatisfiedPolicies, si.SatisfiedPolicy)
 	}
 	if err := rhp4.WriteResponse(s, &renterPolicyResp); err != nil {
-		signer.ReleaseInputs([]types.V2Transaction{renewalTxn})
+		signer.ReleaseInputs([]types.V2Transaction{reserved})
 		return RPCRenewContractResult{}, fmt.Errorf("failed to write signature response: %w", err)
 	}
 
 	// read the finalized transaction set
 	var hostTransactionSetResp rhp4.RPCRenewContractThirdResponse
 	if err := rhp4.ReadResponse(s, &hostTransactionSetResp); err != nil {
-		signer.ReleaseInputs([]types.V2Transaction{renewalTxn})
+		signer.ReleaseInputs([]types.V2Transaction{reserved})
 		return RPCRenewContractResult{}, fmt.Errorf("failed to read final response: %w", err)
 	}
 
 	if len(hostTransactionSetResp.TransactionSet) == 0 {
-		signer.ReleaseInputs([]types.V2Transaction{renewalTxn})
+		signer.ReleaseInputs([]types.V2Transaction{reserved})
 		return RPCRenewContractResult{}, clientErrf("expected at least one host transaction")
 	}
 	hostRenewalTxn := hostTransactionSetResp.TransactionSet[len(hostTransactionSetResp.TransactionSet)-1]
 	if len(hostRenewalTxn.FileContractResolutions) != 1 {
-		signer.ReleaseInputs([]types.V2Transaction{renewalTxn})
+		signer.ReleaseInputs([]types.V2Transaction{reserved})
 		return RPCRenewContractResult{}, clientErrf("expected exactly one resolution")
 	}
 
 	hostRenewal, ok := hostRenewalTxn.FileContractResolutions[0].Resolution.(*types.V2FileContractRenewal)
 	if !ok {
-		signer.ReleaseInputs([]types.V2Transaction{renewalTxn})
+		signer.ReleaseInputs([]types.V2Transaction{reserved})
 		return RPCRenewContractResult{}, clientErrf("expected renewal resolution")
 	}
 
 	// check for no funny business: the final transaction must be the one we
 	// signed
 	if renewalTxn.ID() != hostRenewalTxn.ID() {
-		signer.ReleaseInputs([]types.V2Transaction{renewalTxn})
+		signer.ReleaseInputs([]types.V2Transaction{reserved})
 		return RPCRenewContractResult{}, clientErrf("transaction ID mismatch")
 	}
 
 	// validate the host signature
 	if !existing.HostPublicKey.VerifyHash(renewalSigHash, hostRenewal.HostSignature) {
-		signer.ReleaseInputs([]types.V2Transaction{renewalTxn})
+		signer.ReleaseInputs([]types.V2Transaction{reserved})
 		return RPCRenewContractResult{}, clientErrf("invalid host renewal signature")
 	} else if !existing.HostPublicKey.VerifyHash(contractSigHash, hostRenewal.NewContract.HostSignature) {
-		signer.ReleaseInputs([]types.V2Transaction{renewalTxn})
+		signer.ReleaseInputs([]types.V2Transaction{reserved})
 		return RPCRenewContractResult{}, clientErrf("invalid host contract signature")
 	} else if cs.ContractSigHash(hostRenewal.NewContract) != contractSigHash || hostRenewal.NewContract.RenterSignature != renewal.NewContract.RenterSignature {
 		// the signatures above were checked against the contract built locally;
 		// the contract the host sent back must be that same contract
-		signer.ReleaseInputs([]types.V2Transaction{renewalTxn})
+		signer.ReleaseInputs([]types.V2Transaction{reserved})
 		return RPCRenewContractResult{}, clientErrf("host returned a different contract")
 	}
 	return RPCRenewContractResult{
